@@ -66,6 +66,7 @@ pub struct Agg {
     pub digests: HashSet<u64>,
     pub schedules: HashSet<u64>,
     pub counts: Vec<u64>,
+    pub effective: Vec<u64>,
     pub left_envelope: u64,
     pub env_skips: u64,
     pub log_xor: u64,
@@ -212,6 +213,12 @@ fn batch(args: &Args) -> i32 {
         let res = engines::run_one(&engine, run_seed, &mut ctx);
         agg.add(&res.stats);
         agg.add_counts(&res.counts);
+        if agg.effective.len() < res.effective.len() {
+            agg.effective.resize(res.effective.len(), 0);
+        }
+        for (k, v) in res.effective.iter().enumerate() {
+            agg.effective[k] += v;
+        }
         if let Some(h) = hashes.as_mut() {
             let _ = writeln!(h, "{} {:016x} {:016x} {} {}", i, res.stats.log_hash, res.stats.digest, res.stats.outcome, res.violations.len());
         }
@@ -260,6 +267,7 @@ fn batch(args: &Args) -> i32 {
         "draws": agg.draws, "sim_us": agg.sim_us, "faults": agg.faults, "probes": agg.probes,
         "outcomes": agg.outcomes, "distinct_local": digests.len(), "left_envelope": agg.left_envelope,
         "env_skips": agg.env_skips, "log_xor": agg.log_xor, "instr_counts": counts,
+        "instr_effective": names.iter().cloned().zip(agg.effective.iter().cloned().chain(std::iter::repeat(0))).collect::<BTreeMap<String, u64>>(),
         "samples": agg.samples, "violations": agg.violations,
         "extra": ctx.extra_summary(),
     });
